@@ -85,6 +85,7 @@ EnvDo(st, ev, args, scn) ==
     [] ev = "MarkUnschedule" -> [st EXCEPT !.apps[args[1]].unschedule = TRUE]
     [] ev = "RemoveServer" -> DoRemoveServer(st, args[1])
     [] ev = "AddServer" -> DoAddServer(st, args[1], scn.sprofiles[args[2]], scn.sparent[args[1]])
+    [] ev = "SetVu" -> [st EXCEPT !.servers[args[1]].vu = args[2]]
     [] ev = "Blacklist" -> [st EXCEPT !.apps[args[1]].blacklisted = TRUE]
     [] ev = "Unblacklist" -> [st EXCEPT !.apps[args[1]].blacklisted = FALSE]
     [] ev = "SetCount" -> DoSetCount(st, args[1], args[2])
